@@ -227,29 +227,29 @@ def r19_4(ctx, S, prog, crate):
     ctx.check(len(nloops) == 1, "R19.4", [b.path, "single-sampling-loop"], "loops containing the broadcast: %d (tuning must not have a loop of its own)" % len(nloops), b.where(0))
 
 
-def r19_5(ctx, S, prog, crate):
+def r19_5(ctx, S, prog, crate, rule="R19.5"):
     """'All reported samples use that final size': the size recorded with the samples (samples.sample_size, which
     compute_stats divides by and multiplies into `iters`) is stored in the same round, from the same
     current_mode.sample_size() call that sizes the round's samples, before the round is broadcast - so whenever the loop
     stops, the recorded size is the one the retained samples were taken with."""
     b = S.body
     stores = [(bi, si, s) for bi, si, s in b.stmts() if s["k"] == "assign" and s["p"]["l"] == 1 and place_fields(s["p"]) == ("samples", "sample_size")]
-    if not ctx.check(len(stores) == 1, "R19.5", [b.path, "one-store"], "stores to samples.sample_size: %d" % len(stores), b.where(0)):
+    if not ctx.check(len(stores) == 1, rule, [b.path, "one-store"], "stores to samples.sample_size: %d" % len(stores), b.where(0)):
         return
     bi, si, s = stores[0]
     d = direct_place(b, s["rv"]["o"]) if s["rv"]["k"] == "use" else None
     ok = d is not None and d[0] == "call" and d[1].callee == "benchmark::BenchMode::sample_size"
-    ctx.check(ok and bi in S.loop["body"] and b.dominates(bi, S.pe[0].bb) and b.once_per_iteration(bi, S.loop), "R19.5", [b.path, "recorded-size-is-this-rounds"],
+    ctx.check(ok and bi in S.loop["body"] and b.dominates(bi, S.pe[0].bb) and b.once_per_iteration(bi, S.loop), rule, [b.path, "recorded-size-is-this-rounds"],
               "samples.sample_size is not stored every round, before the broadcast, from current_mode.sample_size(): if sampling stops while tuning "
               "(max_time), the reported size can differ from the size the retained samples were taken with", b.where(bi))
     if ok:
         ssz = d[1]
         # the same call result sizes the round (captured by the record closure) - C03/R03.3 checks the capture; here: the mode
         # read is the loop-carried mode and happens before this round's mode switch
-        ctx.check(ssz.bb in S.loop["body"] and b.once_per_iteration(ssz.bb, S.loop), "R19.5", [b.path, "size-read-once-per-round"],
+        ctx.check(ssz.bb in S.loop["body"] and b.once_per_iteration(ssz.bb, S.loop), rule, [b.path, "size-read-once-per-round"],
                   "current_mode.sample_size() is not read exactly once per round", ssz.line())
         tune = [c for c in b.live_calls() if c.callee == "benchmark::BenchMode::is_tune" and c.bb in S.loop["body"]]
-        ctx.check(bool(tune) and b.dominates(ssz.bb, tune[0].bb), "R19.5", [b.path, "size-read-before-mode-switch"],
+        ctx.check(bool(tune) and b.dominates(ssz.bb, tune[0].bb), rule, [b.path, "size-read-before-mode-switch"],
                   "the round's size is read after the mode may already have been advanced", ssz.line())
 
 
